@@ -12,7 +12,7 @@ MANIFEST = dict(
          "completed; slot_atomic: if every access to a protected value happens under its lock, the projection of any run on that "
          "value is a sequence of whole critical sections, one thread each, in each thread's program order - so a request that "
          "takes a channel slot once is atomic for that channel and C01-C03 transfer to concurrent histories. The lock programs of "
-         "58 request kinds (14 of them real protocol messages through ChannelHandler / RootHandler::do_handle at protocol 4 and 6) (commitment updates, new/setup/forget channel, balance, chaninfo and heartbeat queries, invoice and "
+         "60 request kinds (14 of them real protocol messages through ChannelHandler / RootHandler::do_handle at protocol 4 and 6) (commitment updates, new/setup/forget channel, balance, chaninfo and heartbeat queries, invoice and "
          "keysend approval, allowlist, on-chain check and sign, block add/remove compact and streamed, persist_all) are RECORDED "
          "FROM THE REAL CODE on every run through an instrumented Mutex (hook cfg(vls_verif), vls-core/src/verif_sync.rs) and "
          "written to Gen/LockProgs.v; the rank is SEARCHED by tools/gen_locks.py (topological order of the observed lock-order "
@@ -48,6 +48,7 @@ PINNED = ["C20_ranked", "C20_guarded", "C20_deadlock_free_partial", "C20_complet
           "C20_sections_at_quiescence", "C20_updates_single_section", "C20_listed_inversions_deadlock", "C20_nonvacuous",
           "C20_old_forget_channel_refuted", "C20_old_forget_channel_unrankable", "C20_old_races_deadlock",
           "C20_old_inversions_unrankable", "C20_old_programs_unrankable", "C20_checker_rejects_inversion",
+          "C20_store_access_under_a_lock", "C20_allowlist_written_under_node_state", "C20_nested_under_rejects_late_write",
           "C20_counters_rmw", "C20_generated_ids_distinct_partial", "C20_load_store_refuted", "C20_counters_nonvacuous"]
 
 FALLBACK_KNOWN = os.path.join(lib.ROOT, "notes", "fixes", "C20-known-findings.json")
@@ -332,6 +333,19 @@ def run(res):
                       % (" || ".join(o["spec"]), o["replies"], ", ".join(closest["differing_keys"][:4]) or "none", content),
                       {"domain": "locks-sweep", "command": "harness locks race " + " ".join(o["spec"]), "case": o}, has_input=True)
 
+    # stored state: a request must not reach the store with no structural lock held (its write would not
+    # belong to the critical section that computed it); allowlist requests: under the node state
+    late = gen_locks.store_outside_locks(classes, [p for p in progs if p["name"] not in ana["excluded"]])
+    late += [x for x in gen_locks.store_outside_locks(classes, [p for p in progs if p["name"].startswith("allowlist_")], outer=("S",))
+             if x["request"] not in [y["request"] for y in late]]
+    for x in late[:4]:
+        res.violation("request %s writes to the store (%s) outside the critical section that computed the value (holding %s): "
+                      "two such requests can store their snapshots in the opposite order of their updates"
+                      % (x["request"], x["store"], ", ".join(x["holding"]) or "no lock"),
+                      {"request": x["request"], "program": " ".join("%s(%s)" % (k, gen_locks.lname(classes, (c, i)))
+                                                                      for k, c, i in by_name[x["request"]]["events"] if k != "T")},
+                      has_input=False)
+
     # lock-free counters: named finding for a non-atomic update, and a STRESS TEST (no schedule control: the
     # mutex hook cannot pause inside an atomic) of the requests that use them
     for a in non_rmw:
@@ -391,6 +405,7 @@ def run(res):
         "evaluations": len(progs) + len(replays) + len([l for l in listed if l["replay"]]) + sweep["races"] + stress["rounds"],
         "sweep": sweep,
         "stress": {k: v for k, v in stress.items() if k != "failures"} | {"failed_rounds": len(stress["failures"])},
+        "store_access_outside_locks": late,
         "atomic_fields": ana["atomics"]["fields"],
         "atomic_programs": [{k: a[k] for k in ("field", "function", "ops")} for a in ana["atomics"]["programs"]],
         "map_check_then_act_requests": cta,
@@ -419,7 +434,8 @@ def run(res):
                 "run on 8 processes. Stress (NOT an exploration, no schedule control): rounds of 8 threads released together, each asking "
                 "for a generated channel id (new_channel_with_random_id; every 4th round: entropy) - lock-free counters that the "
                 "mutex hook cannot steer; a round must give 8 Ok replies, 8 distinct values, 8 new stubs. All must complete, and replies + final "
-                "state (every stored record without versions, every channel's in-memory enforcement state, the node payment ledger; "
+                "state (every stored record without versions, every channel's in-memory enforcement state, the node payment ledger, the "
+                "in-memory allowlist, and for allowlist pairs the allowlist of a node restored from the store; "
                 "order-insensitive) and the CONTENT of the replies (heartbeat tip/height/time, balances, chaninfo, points, secrets, "
                 "signatures with their commitment number, channel ids) "
                 "must equal those of P;Q or of Q;P run sequentially.",
